@@ -37,6 +37,9 @@ type W7Msg struct {
 	Rows []int64 `json:"rows,omitempty"`
 	Ts   uint64  `json:"ts"`
 	Tag  int64   `json:"tag"`
+	// PreRI: replication info the message already carries when the writer gets it (chained replication):
+	// 0 none, 1 an empty info, 2 the mark and id of another replication
+	PreRI int `json:"pre_ri,omitempty"`
 }
 
 type W7Pack struct {
@@ -88,6 +91,9 @@ func GenW7(rng *Rng) *W7Script {
 				tag++
 				k := Pick(rng, []string{"ins", "ins", "del", "dropp", "dropc"})
 				msg := W7Msg{Kind: k, DB: Pick(rng, []string{"default", "", "dbx"}), Coll: Pick(rng, []string{"c1", "c2"}), Part: Pick(rng, []string{"_default", "p1"}), Ts: ts, Tag: tag}
+				if rng.Pct(15) {
+					msg.PreRI = rng.Range(1, 2)
+				}
 				if k == "ins" || k == "del" {
 					for i := 0; i < rng.Range(1, 3); i++ {
 						row++
@@ -114,7 +120,14 @@ func GenW7(rng *Rng) *W7Script {
 func buildW7Msg(m W7Msg, ch string) msgstream.TsMsg {
 	base := msgstream.BaseMsg{BeginTimestamp: m.Ts, EndTimestamp: m.Ts, HashValues: []uint32{0}, MsgPosition: &msgpb.MsgPosition{ChannelName: ch, MsgID: SeqToMsgID(int(m.Tag)), Timestamp: m.Ts}}
 	mb := func(t commonpb.MsgType) *commonpb.MsgBase {
-		return &commonpb.MsgBase{MsgType: t, MsgID: m.Tag, Timestamp: m.Ts, SourceID: 1}
+		b := &commonpb.MsgBase{MsgType: t, MsgID: m.Tag, Timestamp: m.Ts, SourceID: 1}
+		switch m.PreRI {
+		case 1:
+			b.ReplicateInfo = &commonpb.ReplicateInfo{}
+		case 2:
+			b.ReplicateInfo = &commonpb.ReplicateInfo{IsReplicate: true, ReplicateID: "another-replication", MsgTimestamp: 1}
+		}
+		return b
 	}
 	switch m.Kind {
 	case "ins":
